@@ -286,6 +286,7 @@ func knobsFor(prop string, faulty bool) knobs {
 			k.pDeadline = 10
 		}
 	case "C02":
+		k.doneOps = 35
 		k.mutator = true
 		k.share = 60
 		k.watchMin, k.watchMax = 2, 4
@@ -529,7 +530,12 @@ func (g *gen) reporterOp(k knobs, c *ClientSpec, idx int) Op {
 	if g.pct(k.pBlocking) {
 		op.K = "breport"
 	}
-	if k.share > 0 && g.pct(k.share) && op.Part.P != nil {
+	if g.pct(12) {
+		// report once more exactly what this source reported last (or returned
+		// initially): the stack does not change
+		op.Part, op.Str = nil, "again"
+	}
+	if op.Part != nil && k.share > 0 && g.pct(k.share) && op.Part.P != nil {
 		op.Part.NestX, op.Part.Share = ip(*op.Part.P), true
 	}
 	op.Ctx, op.D = g.ctxKind(k.pDeadline, k.pExpired)
